@@ -230,7 +230,7 @@ impl Property for P {
         "C15"
     }
     fn rule(&self) -> String {
-        "exhaustive table: 9 methods x status 300..=399 x 2 auth policies x response body {none, Content-Length, chunked} x request version {1.1, 1.0 where the method exists} x {plain, Expect: 100-continue refused by this very 3xx, no Location field, an unsolicited 100 Continue first, a request loaded with explicit Host + cookie + its own framing header redirected to another authority, a Location that is the very URI just requested}. Each cell runs a real exchange to the end and compares: redirect state entered <=> 3xx and not 304, Redirect.status() == status, as_new_flow outcome and new method == the table of the statement. class = (307/308 | other 3xx) x method x outcome.".into()
+        "exhaustive table: 9 methods x status 300..=399 x 2 auth policies x response body {none, Content-Length, chunked} x request version {1.1, 1.0 where the method exists} x {plain, Expect: 100-continue refused by this very 3xx, no Location field, an unsolicited 100 Continue first, a request loaded with explicit Host + cookie + its own framing header redirected to another authority, a Location that is the very URI just requested}. Each cell runs a real exchange to the end and compares: redirect state entered <=> 3xx and not 304, Redirect.status() == status, as_new_flow outcome and new method == the table of the statement. class = (307/308 | other 3xx) x method x outcome. Two more variants: an interim 103 seen in two looks with nothing behind the 3xx message; blanks before the chunk extensions of the 3xx body.".into()
     }
     fn assumptions(&self) -> Vec<String> {
         vec!["the table is restated from the property text in wire::redirect_method".into()]
